@@ -18,6 +18,16 @@ open Proc.FilterEval Spec.FilterSem Proc.Extract
 theorem matchWF_of (f : FilterFn) (res : Res) (h : OutWF res.values.length (f res)) :
     MatchWF (filterMatch f res) := h
 
+/-- the spec's auxiliary recursions are the ordinary quantifiers over the operand list:
+⟦AND es⟧ = ∀ e ∈ es, ⟦e⟧ ; ⟦OR es⟧ = ∃ e ∈ es, ⟦e⟧ (so `*` is true and `-*` false). -/
+theorem denote_and_or (re : ReOracle) (res : Res) (i : Nat) (es : List Filter) :
+    denote re res i (.and es) = es.all (denote re res i ·) ∧
+    denote re res i (.or es) = es.any (denote re res i ·) := by
+  simp only [denote]
+  induction es with
+  | nil => simp [denoteAll, denoteAny]
+  | cons e es ih => simp [denoteAll, denoteAny, ih.1, ih.2]
+
 /-- **eval_test**: measurement `i` is matched iff the expression is true at `i`. -/
 theorem eval_test (re : ReOracle) (e : Filter) (f : FilterFn) (res : Res) (i : Nat)
     (h : walk re e = .ok f) (hi : i < res.values.length) :
